@@ -305,14 +305,7 @@ def restart(check: Check) -> None:
                       ("outputs", "restart clears every output variable")):
         check.require(key not in bad, "H2", f"Engine.restart/{key}", f"{good} ({cases} model engines)" if key not in bad else bad[key], loc(fn), exhaustive=True, cases=cases)
     rule_block_loading(check)
-    for qual in ("Rule.load", "Rule.unload"):
-        f = p.func(qual)
-        check.analysed(f)
-        r2 = Resolver(p, f)
-        deact = [n for n, c in r2.cfg.find_calls(".deactivate") if r2.term(c.func.value, n) == ("param", "self")]  # type: ignore[union-attr]
-        effects = [n for n, c in r2.cfg.all_calls() if isinstance(c.func, ast.Attribute) and c.func.attr in ("load", "unload", "parse")]
-        ok = bool(deact) and bool(effects) and all(r2.cfg.must_precede(deact, n) for n in effects) and not any(r2.cfg.must_guards(n) for n in deact)
-        check.require(ok, "H3", f"{qual}/deactivate-first", f"{qual} starts by resetting the rule's activation state", loc(f))
+    wiring.rule_load_semantics(check, rule="H3")  # Rule.load / unload: the rule's activation state is reset, both parts are (un)loaded
 
 
 def rule_block_loading(check: Check) -> None:
@@ -365,7 +358,7 @@ def rule_block_loading(check: Check) -> None:
                     hooks = {"method:load": load, "method:unload": unload, "method:is_loaded": lambda ex_, e, recv, args, kw: recv.fields["loaded"],
                              **{f"method:{nm}": other(nm) for nm in ("parse", "deactivate", "create", "activate_with", "trigger")}}
                     me = MObj("RuleBlock", {"rules": rules, "name": "block", "enabled": True, "__len__": 3})
-                    ex = AbsExec(fn.qualname, hooks, helpers={k: v for k, v in fn.cls.methods.items() if k in ("unload_rules", "load_rules", "reload_rules") and k != meth})
+                    ex = AbsExec(fn.qualname, hooks, helpers={k: v for k, v in fn.cls.methods.items() if (k in ("unload_rules", "load_rules", "reload_rules") or (k.startswith("_") and not k.startswith("__"))) and k != meth})
                     env = {params[0]: me}
                     if len(params) > 1:
                         env[params[1]] = engine
